@@ -56,7 +56,7 @@ pub fn corpus(idx: usize, seed: u64, w: &mut dyn Write, thorough: bool) -> Optio
             g.step(&x("bobby", vec![], MMsg::BL { listing_id: 3, bucket_id: 3 }));
             g.step(&Op::ADV { d_ns: 604_801_000_000_000, d_height: 100_000 });
             g.step(&x("david", vec![], MMsg::FC));
-            g.step(&x("alice", natives(&[(200, JUNO_DENOM), (200, USDC_DENOM)]), MMsg::AB { id: 3 }));
+            g.step(&x("alice", natives(&[(200, JUNO_DENOM)]), MMsg::AB { id: 3 }));
             g.step(&x("carol", natives(&[(9, "uatom")]), MMsg::CL { id: 4, create: create(&[(40_000, JUNO_DENOM), (40_000, USDC_DENOM)]) }));
             g.step(&x("carol", vec![], MMsg::FI { id: 4, seconds: 600 }));
             g.step(&x("alice", vec![], MMsg::BL { listing_id: 4, bucket_id: 3 }));
@@ -620,6 +620,10 @@ pub fn boundary(idx: usize, seed: u64, w: &mut dyn Write, thorough: bool) -> Opt
             g.step(&x("carol", natives(&[(1, JUNO_DENOM)]), MMsg::CL { id: 4, create: Create { ask: ask26, whitelist: None } }));
             g.step(&x("carol", natives(&[(1, JUNO_DENOM)]), MMsg::CL { id: 4, create: Create { ask: ask25, whitelist: None } }));
             g.step(&x("carol", vec![], MMsg::FI { id: 3, seconds: 600 }));
+            // a full listing, and one created over the cap in a single message, finalize for both ends of the range
+            g.step(&x("alice", vec![], MMsg::FI { id: 5, seconds: 1_209_600 }));
+            g.step(&x("bobby", mk(26), MMsg::CL { id: 7, create: create(&[(1, JUNO_DENOM)]) }));
+            g.step(&x("bobby", vec![], MMsg::FI { id: 7, seconds: 600 }));
             g.step(&x("alice", vec![], MMsg::BL { listing_id: 3, bucket_id: 1 }));
             g.battery_faults();
             g.battery_drain();
@@ -950,6 +954,98 @@ pub fn boundary(idx: usize, seed: u64, w: &mut dyn Write, thorough: bool) -> Opt
             g.step(&x(payer, vec![], MMsg::BL { listing_id: 1, bucket_id: 1 }));
             // the registry answers for all 25 at once, and for 26 names with an unregistered one
             g.battery_queries();
+            g.battery_drain();
+            Some(g.stats)
+        }
+        26 => {
+            // asks far beyond the cap (counts that a narrowing cast folds back under it), prefix-related collection
+            // addresses with token ids that make address ++ id coincide, and accounts that differ only by case
+            let extra: Vec<String> = (0..290).map(|i| format!("x{:03}", i)).collect();
+            let sim = Sim::new(Config { n_users: 3, n_cw20: 1, n_cw721: 21, nfts_per_user_per_collection: 1, n_hostile: 0, odd_token_ids: true, extra_token_ids: extra.clone(), ..Config::default() });
+            let mut g = Gen::start(sim, "boundary:26 wide asks, prefix twins, case twins", seed, w, thorough);
+            let colls = g.h.sim.cw721_addrs().to_vec();
+            g.step(&x("alice", natives(&[(5, JUNO_DENOM)]), MMsg::CL { id: 1, create: create(&[(5, "uatom")]) }));
+            for n in [25usize, 26, 255, 256, 257, 281, 282] {
+                let ask = RawGBal { native: vec![], cw20: vec![], nfts: extra.iter().take(n).map(|t| (va(&colls[0]), t.clone())).collect() };
+                g.probe(&x("alice", vec![], MMsg::CA { id: 1, ask: ask.clone() }));
+                g.probe(&x("bobby", natives(&[(5, JUNO_DENOM)]), MMsg::CL { id: 100 + n as u64, create: Create { ask: ask.clone(), whitelist: None } }));
+                let line = validate_line(&g.h.sim, &ask);
+                g.emit(&line);
+            }
+            // prefix-related addresses: every (shorter, longer) pair of collections, both tokens in one bucket / listing / ask
+            let mut id = 200u64;
+            for i in 0..colls.len() {
+                for j in 0..colls.len() {
+                    if i == j || !colls[j].starts_with(colls[i].as_str()) {
+                        continue;
+                    }
+                    let suffix = colls[j][colls[i].len()..].to_string();
+                    let long_tid = g.h.sim.nft_owners(&colls[j]).into_iter().find(|(t, o)| o == "alice" && t.starts_with("t0")).map(|(t, _)| t).unwrap();
+                    let short_tid = format!("{}{}", suffix, long_tid);
+                    id += 1;
+                    g.step(&Op::T721 { coll: colls[j].clone(), sender: "alice".into(), token_id: long_tid.clone(), inner: Inner::CB { id } });
+                    g.step(&Op::T721 { coll: colls[i].clone(), sender: "alice".into(), token_id: short_tid.clone(), inner: Inner::AB { id } });
+                    let both = RawGBal { native: vec![], cw20: vec![], nfts: vec![(va(&colls[j]), long_tid.clone()), (va(&colls[i]), short_tid.clone())] };
+                    g.probe(&x("alice", vec![], MMsg::CA { id: 1, ask: both.clone() }));
+                    let line = validate_line(&g.h.sim, &both);
+                    g.emit(&line);
+                    g.step(&x("alice", vec![], MMsg::RB { id }));
+                    id += 1;
+                    g.step(&Op::T721 { coll: colls[i].clone(), sender: "alice".into(), token_id: short_tid.clone(), inner: Inner::CL { id, create: Create { ask: both.clone(), whitelist: None } } });
+                    g.step(&Op::T721 { coll: colls[j].clone(), sender: "alice".into(), token_id: long_tid.clone(), inner: Inner::AL { id } });
+                    g.step(&x("alice", vec![], MMsg::DL { id }));
+                }
+            }
+            // a listing reserved for alice: ALICE and Bobby are other accounts, however alike the names
+            g.step(&x("carol", natives(&[(9, "uosmo")]), MMsg::CL { id: 300, create: Create { ask: RawGBal::natives(natives(&[(7, "uatom")])), whitelist: Some(va("alice")) } }));
+            g.step(&x("carol", vec![], MMsg::FI { id: 300, seconds: 600 }));
+            for (k, who) in ["ALICE", "Bobby", "bobby", "alice"].iter().enumerate() {
+                g.step(&x(who, natives(&[(7, "uatom")]), MMsg::CB { id: 310 + k as u64 }));
+                g.step(&x(who, vec![], MMsg::BL { listing_id: 300, bucket_id: 310 + k as u64 }));
+            }
+            // … nor can they touch alice's or bobby's records
+            for who in ["ALICE", "Bobby"] {
+                g.probe(&x(who, vec![], MMsg::RB { id: 312 }));
+                g.probe(&x(who, vec![], MMsg::WP { id: 300 }));
+                g.probe(&x(who, natives(&[(1, "uatom")]), MMsg::AB { id: 312 }));
+                g.probe(&x(who, vec![], MMsg::DL { id: 1 }));
+            }
+            g.battery_queries();
+            g.battery_drain();
+            Some(g.stats)
+        }
+        27 => {
+            // a clock that no longer fits 32 bits of seconds: the week rule, lifetimes and expiry behave as ever
+            let start_s: u64 = (1u64 << 32) - 1000;
+            let sim = Sim::new(Config { n_users: 3, n_cw20: 1, n_cw721: 1, nfts_per_user_per_collection: 1, n_hostile: 0, start_time_ns: start_s * 1_000_000_000 + 123_456_789, ..Config::default() });
+            let mut g = Gen::start(sim, "boundary:27 clock beyond 32 bits", seed, w, thorough);
+            g.step(&x("alice", natives(&[(1000, JUNO_DENOM), (1000, USDC_DENOM)]), MMsg::CL { id: 1, create: create(&[(1000, JUNO_DENOM), (1000, USDC_DENOM)]) }));
+            g.step(&x("alice", vec![], MMsg::FI { id: 1, seconds: 1_209_600 }));
+            g.step(&x("alice", natives(&[(5, "uatom")]), MMsg::CL { id: 2, create: create(&[(5, "uosmo")]) }));
+            g.step(&x("alice", vec![], MMsg::FI { id: 2, seconds: 600 }));
+            g.probe(&x("bobby", vec![], MMsg::FC));
+            g.query(&Query::FD);
+            g.step(&Op::ADV { d_ns: 999_000_000_000, d_height: 10 }); // 1 s before 2^32
+            g.probe(&x("alice", vec![], MMsg::DL { id: 2 }));
+            g.step(&Op::ADV { d_ns: 2_000_000_000, d_height: 1 }); // 1 s after 2^32: listing 2 (600 s) has expired, listing 1 has not
+            g.query(&Query::MK { page: 1 });
+            g.probe(&x("alice", vec![], MMsg::DL { id: 1 }));
+            g.step(&x("alice", vec![], MMsg::DL { id: 2 }));
+            g.step(&x("bobby", natives(&[(1000, JUNO_DENOM), (1000, USDC_DENOM)]), MMsg::CB { id: 1 }));
+            for d in [604_800u64 - 1001 - 1, 1, 1, 1] {
+                // week - 1 s, week, week + 1 s, week + 2 s after instantiation
+                g.step(&Op::ADV { d_ns: d * 1_000_000_000, d_height: 1 });
+                g.query(&Query::FD);
+                g.probe(&x("carol", vec![], MMsg::FC));
+            }
+            g.step(&x("carol", vec![], MMsg::FC));
+            g.probe(&x("carol", vec![], MMsg::FC));
+            g.step(&x("bobby", vec![], MMsg::BL { listing_id: 1, bucket_id: 1 }));
+            g.step(&Op::ADV { d_ns: 604_801_000_000_000, d_height: 100_000 });
+            g.step(&x("alice", vec![], MMsg::FC));
+            g.query(&Query::FD);
+            g.step(&x("bobby", vec![], MMsg::WP { id: 1 }));
+            g.step(&x("alice", vec![], MMsg::RB { id: 1 }));
             g.battery_drain();
             Some(g.stats)
         }
